@@ -244,9 +244,34 @@ func transform(xs []float64, shift, scale float64) []float64 {
 	return out
 }
 
+// withSpare copies xs into a buffer with spare capacity filled with a sentinel.
+func withSpare(xs []float64) []float64 {
+	out := make([]float64, len(xs), 3*len(xs)+4)
+	copy(out, xs)
+	full := out[:cap(out)]
+	for i := len(xs); i < len(full); i++ {
+		full[i] = -3.25e99
+	}
+	return out
+}
+
+func untouched(buf, orig []float64) bool {
+	full := buf[:cap(buf)]
+	for i, x := range full {
+		if i < len(orig) {
+			if math.Float64bits(x) != math.Float64bits(orig[i]) {
+				return false
+			}
+		} else if x != -3.25e99 {
+			return false
+		}
+	}
+	return len(buf) == len(orig)
+}
+
 var checkTTest = ev.Register("ttest", func(c *Case) ev.Outcome {
-	x1 := append([]float64(nil), c.X1...)
-	x2 := append([]float64(nil), c.X2...)
+	x1 := withSpare(c.X1)
+	x2 := withSpare(c.X2)
 	if !inDomain(c.X1) || !inDomain(c.X2) || (c.Kind == "paired" && len(c.X1) == len(c.X2) && !inDomain(diffs(c.X1, c.X2))) {
 		// relative spread below 1e-6: outside the quantifier of the property
 		call(c.Kind, x1, x2, c.Mu0, c.Alt) // must still not panic
@@ -365,6 +390,9 @@ var checkTTest = ev.Register("ttest", func(c *Case) ev.Outcome {
 	}
 	if c.Kind == "welch" && len(c.X1) != len(c.X2) && stats.Variance(c.X1) == stats.Variance(c.X2) {
 		classes = append(classes, "welch-equal-variance-unequal-n")
+	}
+	if !untouched(x1, c.X1) || !untouched(x2, c.X2) {
+		return ev.Fail("%s modified its arguments (or their spare capacity)", c.Kind)
 	}
 	nt := r.P > 1e-12 && r.P < 1-1e-12
 	return ev.OK(nt, classes...)
